@@ -86,9 +86,10 @@ func (v *V1) GetRecordSize(buf []byte, startFileOffset uint32) (payloadSize uint
 
 func (v *V1) ReadHeaderWithValidation(buf []byte, startFileOffset uint32) (payloadSize uint32, previousCrc uint32, payloadCrc uint32, err error) {
 	bufSize := uint32(len(buf))
-	if startFileOffset >= bufSize {
+	// the size field itself must be inside the buffer
+	if startFileOffset >= bufSize || bufSize-startFileOffset < v1PayloadSizeLen {
 		return payloadSize, previousCrc, payloadCrc, errors.Wrapf(ErrOffsetOutOfBounds,
-			"expected payload size: %d. actual buf size: %d ", startFileOffset+v1PayloadSizeLen, bufSize)
+			"expected payload size: %d. actual buf size: %d ", uint64(startFileOffset)+uint64(v1PayloadSizeLen), bufSize)
 	}
 
 	payloadSize = ReadInt(buf, startFileOffset)
@@ -96,12 +97,13 @@ func (v *V1) ReadHeaderWithValidation(buf []byte, startFileOffset uint32) (paylo
 	if payloadSize == 0 {
 		return payloadSize, previousCrc, payloadCrc, errors.Wrapf(ErrEmptyPayload, "unexpected empty payload")
 	}
-	expectSize := payloadSize + v.HeaderSize
-	// overflow checking
+	// overflow checking: payloadSize + HeaderSize can wrap around uint32, so compare
+	// the payload size with the room that is left after the header instead
 	actualBufSize := bufSize - startFileOffset
-	if expectSize > actualBufSize {
+	if payloadSize > actualBufSize-v.HeaderSize {
 		return payloadSize, previousCrc, payloadCrc,
-			errors.Wrapf(ErrOffsetOutOfBounds, "expected payload size: %d. actual buf size: %d ", expectSize, bufSize)
+			errors.Wrapf(ErrOffsetOutOfBounds, "expected payload size: %d. actual buf size: %d ",
+				uint64(payloadSize)+uint64(v.HeaderSize), bufSize)
 	}
 	return payloadSize, previousCrc, payloadCrc, nil
 }
